@@ -1,6 +1,11 @@
-(* Counts through a file: a count matrix printed in JASPAR 2016 form (any layout the format
-   allows) and read back by the reader model of coq/io (property C14's round trip) is the same
-   count matrix, hence gives the same conversion chain and the same statistics.
+(* Counts through a file: a count matrix over DNA or protein printed in JASPAR 2016 form (any layout
+   the format allows) and read back by the reader model of coq/io (property C14's round trip) is the
+   same count matrix, hence gives the same conversion chain and the same statistics.
+
+   The symbol letter of column k is looked up in io's GENERATED from_ascii table of the alphabet
+   (GenIoAbc.gen_dna_from_ascii / gen_protein_from_ascii, regenerated from abc.rs on every run): nothing
+   about the alphabets is written down here; [letters_ok] (letter k has index k, for all k < K) is
+   checked by computation on the generated tables.
 
    Bridge: io's record matrix (rmatrix : list (list N), row i / column k = count of symbol k at
    motif position i) IS pwm's count matrix type (cmatrix = list (list N)); no conversion.
@@ -71,79 +76,167 @@ Proof.
   rewrite H3. cbn [negb andb]. now apply N.leb_le.
 Qed.
 
-(* ---------- a DNA count matrix as a JASPAR 2016 record ---------- *)
+(* ---------- a count matrix as a JASPAR 2016 record, over any alphabet whose letters are known ---------- *)
 
-Definition dna_bytes : list N := [65; 67; 84; 71; 78]%N.     (* A C T G N, in symbol-index order *)
+Require Import LMIo.GenIoAbc.
 
-Definition cols_of (counts : list (list N)) : list (N * list (list N)) :=
-  map (fun k => (nth k dna_bytes 0%N, map (fun row => dec_of (nth k row 0%N)) counts)) (seq 0 5).
+(* the letter of symbol k according to a from_ascii table (byte, index) *)
+Definition byte_of (tbl : list (N * nat)) (k : nat) : N :=
+  match find (fun p : N * nat => snd p =? k) tbl with Some p => fst p | None => 0%N end.
 
-Definition src_of (id : list N) (desc : option (list N)) (counts : list (list N)) : src :=
-  {| sid := id; sdesc := desc; scols := cols_of counts |}.
+Definition letters_of (tbl : list (N * nat)) (K : nat) : list N := map (byte_of tbl) (seq 0 K).
 
-Definition counts_ok (counts : list (list N)) : Prop :=
-  1 <= length counts /\ Forall (fun row => length row = 5 /\ Forall (fun c => (c <= u32_max)%N) row) counts.
+Definition dna_letters : list N := letters_of gen_dna_from_ascii gen_dna_K.
+Definition protein_letters : list N := letters_of gen_protein_from_ascii gen_protein_K.
 
-Lemma cols_wf (counts : list (list N)) : counts_ok counts ->
-  forallb (fun c : N * list (list N) => forallb wf_count (snd c)) (cols_of counts) = true.
+(* letter k of [syms] has index k in the alphabet, for every k < K; K >= 1 *)
+Definition letters_ok (A : alphabet) (syms : list N) : bool :=
+  (1 <=? aK A) && (length syms =? aK A) &&
+  forallb (fun k => match aindex A (nth k syms 0%N) with Some k' => k' =? k | None => false end) (seq 0 (aK A)).
+
+Lemma letters_ok_dna : letters_ok Dna dna_letters = true.
+Proof. vm_compute. reflexivity. Qed.
+Lemma letters_ok_protein : letters_ok Protein protein_letters = true.
+Proof. vm_compute. reflexivity. Qed.
+
+Section Abc.
+  Variables (A : alphabet) (syms : list N).
+  Hypothesis Hok : letters_ok A syms = true.
+
+  Lemma letters_K : 1 <= aK A /\ length syms = aK A.
+  Proof.
+    unfold letters_ok in Hok. apply andb_true_iff in Hok. destruct Hok as (H1 & _).
+    apply andb_true_iff in H1. destruct H1 as (H1 & H2). apply Nat.leb_le in H1. apply Nat.eqb_eq in H2. auto.
+  Qed.
+
+  Lemma letters_index k : k < aK A -> aindex A (nth k syms 0%N) = Some k.
+  Proof.
+    intros Hk. unfold letters_ok in Hok. apply andb_true_iff in Hok. destruct Hok as (_ & H3).
+    rewrite forallb_forall in H3. specialize (H3 k ltac:(apply in_seq; lia)).
+    destruct (aindex A (nth k syms 0%N)) as [k'|]; [|discriminate]. apply Nat.eqb_eq in H3. now subst.
+  Qed.
+
+  Definition toks_of (counts : list (list N)) (k : nat) : list (list N) := map (fun row => dec_of (nth k row 0%N)) counts.
+
+  Definition cols_of (counts : list (list N)) : list (N * list (list N)) :=
+    map (fun k => (nth k syms 0%N, toks_of counts k)) (seq 0 (aK A)).
+
+  Definition src_of (id : list N) (desc : option (list N)) (counts : list (list N)) : src :=
+    {| sid := id; sdesc := desc; scols := cols_of counts |}.
+
+  Definition counts_ok (counts : list (list N)) : Prop :=
+    1 <= length counts /\ Forall (fun row => length row = aK A /\ Forall (fun c => (c <= u32_max)%N) row) counts.
+
+  Lemma cols_wf (counts : list (list N)) : counts_ok counts ->
+    forallb (fun c : N * list (list N) => forallb wf_count (snd c)) (cols_of counts) = true.
+  Proof.
+    intros (_ & Hrows). unfold cols_of. apply forallb_forall. intros c Hc. apply in_map_iff in Hc.
+    destruct Hc as (k & <- & Hk). apply in_seq in Hk. cbn [snd]. apply forallb_forall. intros t Ht.
+    apply in_map_iff in Ht. destruct Ht as (row & <- & Hrow). apply wf_count_dec_of.
+    rewrite Forall_forall in Hrows. destruct (Hrows row Hrow) as (Hl & Hc).
+    rewrite Forall_forall in Hc. apply Hc. apply nth_In. lia.
+  Qed.
+
+  (* the line of symbol k among the columns j0, j0+1, .. *)
+  Lemma line_of_from (counts : list (list N)) (k : nat) : forall n j0,
+    j0 <= k < j0 + n -> j0 + n <= aK A ->
+    line_of A k (map (fun k => (nth k syms 0%N, toks_of counts k)) (seq j0 n)) = Some (toks_of counts k).
+  Proof.
+    induction n as [|n IH]; intros j0 Hk Hn; [lia|].
+    cbn [seq map line_of]. rewrite (letters_index j0) by lia.
+    destruct (Nat.eqb_spec j0 k) as [->|Hne]; [reflexivity|]. apply IH; lia.
+  Qed.
+
+  Lemma line_of_cols (counts : list (list N)) (k : nat) : k < aK A ->
+    line_of A k (cols_of counts) = Some (toks_of counts k).
+  Proof. intros Hk. unfold cols_of. apply line_of_from; lia. Qed.
+
+  Lemma distinct_from (counts : list (list N)) : forall n j0 seen,
+    j0 + n <= aK A -> Forall (fun s => s < j0) seen ->
+    distinct_cols A seen (map (fun k => (nth k syms 0%N, toks_of counts k)) (seq j0 n)) = true.
+  Proof.
+    induction n as [|n IH]; intros j0 seen Hn Hseen; [reflexivity|].
+    cbn [seq map distinct_cols]. rewrite (letters_index j0) by lia.
+    assert (E : existsb (Nat.eqb j0) seen = false).
+    { destruct (existsb (Nat.eqb j0) seen) eqn:E; [|reflexivity]. apply existsb_exists in E.
+      destruct E as (x & Hx & Hxe). apply Nat.eqb_eq in Hxe. subst x. rewrite Forall_forall in Hseen.
+      specialize (Hseen j0 Hx). lia. }
+    rewrite E. cbn [negb andb]. apply IH; [lia|]. constructor; [lia|].
+    eapply Forall_impl; [|exact Hseen]. intros s Hs. cbv beta in Hs. lia.
+  Qed.
+
+  Lemma cols_shape (counts : list (list N)) :
+    is_nil (cols_of counts) = false /\ width (cols_of counts) = length counts /\ same_width (cols_of counts) = true.
+  Proof.
+    destruct letters_K as (HK & _). unfold cols_of. destruct (aK A) as [|K'] eqn:EK; [lia|].
+    cbn [seq map is_nil width same_width snd]. unfold toks_of at 1. rewrite map_length.
+    split; [reflexivity|]. split; [reflexivity|].
+    cbn [forallb snd]. unfold toks_of at 1 2. rewrite !map_length, Nat.eqb_refl. cbn [andb].
+    apply forallb_forall. intros c Hc. apply in_map_iff in Hc. destruct Hc as (k & <- & _). cbn [snd].
+    unfold toks_of. rewrite !map_length. apply Nat.eqb_refl.
+  Qed.
+
+  Lemma src_wf (y : style) id desc counts :
+    wf_style y = true -> wf_id id = true -> wf_desc desc = true -> counts_ok counts ->
+    wf_jaspar16 A (y, src_of id desc counts) = true.
+  Proof.
+    intros Hy Hid Hdesc Hc. unfold wf_jaspar16, src_of. cbn [sid sdesc scols].
+    rewrite Hy, Hid, Hdesc, (cols_wf counts Hc). destruct (cols_shape counts) as (H1 & H2 & H3).
+    rewrite H1, H2, H3. unfold cols_of. rewrite (distinct_from counts (aK A) 0 []) by (try lia; constructor).
+    destruct Hc as (HM & _). cbn [negb andb]. destruct (length counts); [lia|reflexivity].
+  Qed.
+
+  (* what the reader must return for it: the counts themselves *)
+  Lemma src_matrix id desc counts : counts_ok counts ->
+    rmatrix (record_of A 0%N dec_value (src_of id desc counts)) = counts.
+  Proof.
+    intros (HM & Hrows). unfold record_of, src_of. cbn [rmatrix scols]. unfold matrix_of.
+    destruct (cols_shape counts) as (_ & Hw & _). rewrite Hw.
+    apply (nth_ext _ _ [] []); [now rewrite map_length, seq_length|].
+    intros i Hi. rewrite map_length, seq_length in Hi.
+    rewrite (nth_indep _ [] ((fun i => map (fun k => cell_of A 0%N dec_value (cols_of counts) i k) (seq 0 (aK A))) 0))
+      by (now rewrite map_length, seq_length).
+    rewrite (map_nth (fun i => map (fun k => cell_of A 0%N dec_value (cols_of counts) i k) (seq 0 (aK A)))), seq_nth by exact Hi.
+    cbn [Nat.add].
+    rewrite Forall_forall in Hrows. destruct (Hrows (nth i counts []) (nth_In _ _ Hi)) as (Hl & Hc).
+    apply (nth_ext _ _ 0%N 0%N); [rewrite map_length, seq_length, Hl; reflexivity|].
+    intros k Hk. rewrite map_length, seq_length in Hk.
+    rewrite (nth_indep _ 0%N ((fun k => cell_of A 0%N dec_value (cols_of counts) i k) 0))
+      by (rewrite map_length, seq_length; exact Hk).
+    rewrite (map_nth (fun k => cell_of A 0%N dec_value (cols_of counts) i k)), seq_nth by exact Hk. cbn [Nat.add].
+    unfold cell_of. rewrite (line_of_cols counts k Hk). unfold toks_of.
+    rewrite nth_error_map, (nth_error_nth' counts [] Hi). cbn [option_map].
+    apply dec_value_dec_of. rewrite Forall_forall in Hc. apply Hc. apply nth_In. lia.
+  Qed.
+
+  (* THE ROUND TRIP: print in JASPAR 2016 form with any admissible layout, any bytes without '>' before,
+     any white space after, any chunking of the stream and any buffer capacities: the reader returns one
+     record whose matrix is the count matrix, then End *)
+  Theorem counts_roundtrip (HA : LMIo.IoMatrixProofs.wf_alphabet A)
+          (y : style) id desc counts caps prefix suffix (s : stream) :
+    wf_style y = true -> wf_id id = true -> wf_desc desc = true -> counts_ok counts ->
+    wf_prefix prefix = true -> wf_suffix suffix = true -> wf_stream s ->
+    stream_bytes s = print_file print_jaspar16 prefix [(y, src_of id desc counts)] suffix ->
+    exists r, jaspar16_read A caps s = [Ok (Some r); Ok None] /\ rmatrix r = counts /\ rid r = id /\ rdesc r = desc.
+  Proof.
+    intros Hy Hid Hdesc Hc Hpre Hsuf Hs Hbytes.
+    pose proof (LMIo.C14io.reader_roundtrip_jaspar16 A caps prefix [(y, src_of id desc counts)] suffix s
+                  HA ltac:(discriminate)) as H.
+    cbn [forallb] in H. rewrite (src_wf y id desc counts Hy Hid Hdesc Hc) in H.
+    specialize (H eq_refl Hpre Hsuf Hs Hbytes). cbn [map snd app] in H.
+    eexists. split; [exact H|]. split; [exact (src_matrix id desc counts Hc)|]. split; reflexivity.
+  Qed.
+End Abc.
+
+(* counts_ok, executable *)
+Definition counts_okb (A : alphabet) (counts : list (list N)) : bool :=
+  (1 <=? length counts) && forallb (fun row => (length row =? aK A) && forallb (fun c => (c <=? u32_max)%N) row) counts.
+
+Lemma counts_okb_sound (A : alphabet) (counts : list (list N)) : counts_okb A counts = true -> counts_ok A counts.
 Proof.
-  intros (_ & Hrows). unfold cols_of. apply forallb_forall. intros c Hc. apply in_map_iff in Hc.
-  destruct Hc as (k & <- & Hk). apply in_seq in Hk. cbn [snd]. apply forallb_forall. intros t Ht.
-  apply in_map_iff in Ht. destruct Ht as (row & <- & Hrow). apply wf_count_dec_of.
-  rewrite Forall_forall in Hrows. destruct (Hrows row Hrow) as (Hl & Hc).
-  rewrite Forall_forall in Hc. apply Hc. apply nth_In. lia.
-Qed.
-
-Lemma src_wf (y : style) id desc counts :
-  wf_style y = true -> wf_id id = true -> wf_desc desc = true -> counts_ok counts ->
-  wf_jaspar16 Dna (y, src_of id desc counts) = true.
-Proof.
-  intros Hy Hid Hdesc Hok. unfold wf_jaspar16, src_of. cbn [sid sdesc scols].
-  rewrite Hy, Hid, Hdesc, (cols_wf counts Hok). destruct Hok as (HM & _).
-  unfold cols_of. cbn [seq map nth dna_bytes is_nil negb andb distinct_cols aindex Dna dna_index].
-  cbn [same_width forallb snd width]. rewrite !map_length, !Nat.eqb_refl. cbn [andb].
-  destruct (length counts); [lia|reflexivity].
-Qed.
-
-(* what the reader must return for it: the counts themselves *)
-Lemma src_matrix id desc counts : counts_ok counts ->
-  rmatrix (record_of Dna 0%N dec_value (src_of id desc counts)) = counts.
-Proof.
-  intros (HM & Hrows). unfold record_of, src_of. cbn [rmatrix scols]. unfold matrix_of.
-  assert (Hw : width (cols_of counts) = length counts) by (unfold cols_of; cbn; now rewrite map_length).
-  rewrite Hw. apply (nth_ext _ _ [] []); [now rewrite map_length, seq_length|].
-  intros i Hi. rewrite map_length, seq_length in Hi.
-  rewrite (nth_indep _ [] ((fun i => map (fun k => cell_of Dna 0%N dec_value (cols_of counts) i k) (seq 0 (aK Dna))) 0))
-    by (now rewrite map_length, seq_length).
-  rewrite (map_nth (fun i => map (fun k => cell_of Dna 0%N dec_value (cols_of counts) i k) (seq 0 (aK Dna)))), seq_nth by exact Hi.
-  cbn [Nat.add].
-  rewrite Forall_forall in Hrows. destruct (Hrows (nth i counts []) (nth_In _ _ Hi)) as (Hl & Hc).
-  apply (nth_ext _ _ 0%N 0%N); [rewrite map_length, seq_length, Hl; reflexivity|].
-  intros k Hk. rewrite map_length, seq_length in Hk. change (k < 5) in Hk.
-  rewrite (nth_indep _ 0%N ((fun k => cell_of Dna 0%N dec_value (cols_of counts) i k) 0))
-    by (rewrite map_length, seq_length; exact Hk).
-  rewrite (map_nth (fun k => cell_of Dna 0%N dec_value (cols_of counts) i k)), seq_nth by exact Hk. cbn [Nat.add].
-  unfold cell_of.
-  assert (El : line_of Dna k (cols_of counts) = Some (map (fun row => dec_of (nth k row 0%N)) counts)).
-  { unfold cols_of. cbn [seq map nth dna_bytes line_of aindex Dna dna_index].
-    do 5 (destruct k as [|k]; [reflexivity|]). lia. }
-  rewrite El, nth_error_map, (nth_error_nth' counts [] Hi). cbn [option_map].
-  apply dec_value_dec_of. rewrite Forall_forall in Hc. apply Hc. apply nth_In. lia.
-Qed.
-
-(* THE ROUND TRIP: print in JASPAR 2016 form with any admissible layout, any bytes without '>' before,
-   any white space after, any chunking of the stream and any buffer capacities: the reader returns one
-   record whose matrix is the count matrix, then End *)
-Theorem counts_roundtrip (y : style) id desc counts caps prefix suffix (s : stream) :
-  wf_style y = true -> wf_id id = true -> wf_desc desc = true -> counts_ok counts ->
-  wf_prefix prefix = true -> wf_suffix suffix = true -> wf_stream s ->
-  stream_bytes s = print_file print_jaspar16 prefix [(y, src_of id desc counts)] suffix ->
-  exists r, jaspar16_read Dna caps s = [Ok (Some r); Ok None] /\ rmatrix r = counts /\ rid r = id /\ rdesc r = desc.
-Proof.
-  intros Hy Hid Hdesc Hok Hpre Hsuf Hs Hbytes.
-  pose proof (LMIo.C14io.reader_roundtrip_jaspar16 Dna caps prefix [(y, src_of id desc counts)] suffix s
-                (proj1 LMIo.C14io.alphabets_wf) ltac:(discriminate)) as H.
-  cbn [forallb] in H. rewrite (src_wf y id desc counts Hy Hid Hdesc Hok) in H.
-  specialize (H eq_refl Hpre Hsuf Hs Hbytes). cbn [map snd app] in H.
-  eexists. split; [exact H|]. split; [exact (src_matrix id desc counts Hok)|]. split; reflexivity.
+  unfold counts_okb, counts_ok. intros H. apply andb_true_iff in H. destruct H as (H1 & H2).
+  apply Nat.leb_le in H1. split; [exact H1|]. apply Forall_forall. intros row Hrow.
+  rewrite forallb_forall in H2. specialize (H2 row Hrow). apply andb_true_iff in H2. destruct H2 as (H2 & H3).
+  apply Nat.eqb_eq in H2. split; [exact H2|]. apply Forall_forall. intros c Hc.
+  rewrite forallb_forall in H3. apply N.leb_le. now apply H3.
 Qed.
